@@ -31,3 +31,125 @@ func TestGovcReplayScanEmptyArrayReply(t *testing.T) {
 `
 	return "proc/redis", "TestGovcReplayScanEmptyArrayReply", src, true
 }
+
+func init() {
+	replayGens["redis.(*upstream).handleRedirection"] = replayRedirectionShort
+	replayGens["redis.parseClusterNodes"] = replayClusterNodesNilMaster
+	replayGens["redis.parseClusterNodesSlot"] = replayClusterNodesSlotRange
+}
+
+// a MOVED/ASK error with fewer than three fields
+func replayRedirectionShort(rc *ReplayCtx) (string, string, string, bool) {
+	if rc.o.Kind != "index" {
+		return "", "", "", false
+	}
+	src := `package redis
+
+import "testing"
+
+func TestGovcReplayShortRedirection(t *testing.T) {
+	u := newTestUpstream(nil)
+	req := newSimpleRequest(newStringArray("get", "a"))
+	defer func() {
+		if r := recover(); r != nil {
+			t.Fatalf("REPLAY-VIOLATION the backend reply '-MOVED 1' panics the proxy in handleRedirection: %v", r)
+		}
+	}()
+	u.handleRedirection(req, newError("MOVED 1"))
+}
+`
+	return "proc/redis", "TestGovcReplayShortRedirection", src, true
+}
+
+// a replica line whose master id does not occur in the CLUSTER NODES reply
+func replayClusterNodesNilMaster(rc *ReplayCtx) (string, string, string, bool) {
+	if rc.o.Kind != "nil-deref" {
+		return "", "", "", false
+	}
+	src := `package redis
+
+import "testing"
+
+func TestGovcReplayClusterNodesUnknownMaster(t *testing.T) {
+	defer func() {
+		if r := recover(); r != nil {
+			t.Fatalf("REPLAY-VIOLATION a CLUSTER NODES reply with a replica of an unlisted master panics the proxy: %v", r)
+		}
+	}()
+	parseClusterNodes("aaaa 127.0.0.1:7001@17001 slave ffff 0 0 1 connected\n")
+}
+`
+	return "proc/redis", "TestGovcReplayClusterNodesUnknownMaster", src, true
+}
+
+// a slot range far beyond the 16384 slots of Redis Cluster
+func replayClusterNodesSlotRange(rc *ReplayCtx) (string, string, string, bool) {
+	if rc.o.Kind != "overflow" && rc.o.Kind != "alloc-bound" && rc.o.Kind != "loop-back" && rc.o.Kind != "post" {
+		return "", "", "", false
+	}
+	src := `package redis
+
+import "testing"
+
+func TestGovcReplayClusterNodesSlotRange(t *testing.T) {
+	slots, err := parseClusterNodesSlot([]string{"0-20000000"})
+	if err == nil && len(slots) > 16384 {
+		t.Fatalf("REPLAY-VIOLATION the slot segment '0-20000000' of a CLUSTER NODES reply makes the proxy materialise %d slot numbers (Redis Cluster has 16384); the amount is chosen by the peer, '0-9223372036854775807' never terminates", len(slots))
+	}
+}
+`
+	return "proc/redis", "TestGovcReplayClusterNodesSlotRange", src, true
+}
+
+func init() {
+	replayGens["redis.(*compressFilter).Compress"] = replayCompressTwice
+}
+
+// the compression filter applied twice to the same request (a redirected write) and read back once
+func replayCompressTwice(rc *ReplayCtx) (string, string, string, bool) {
+	if !containsAny(rc.o.Name, "already-compressed") {
+		return "", "", "", false
+	}
+	src := `package redis
+
+import (
+	"bytes"
+	"testing"
+
+	"github.com/samaritan-proxy/samaritan/pb/config/protocol"
+	redispb "github.com/samaritan-proxy/samaritan/pb/config/protocol/redis"
+	"github.com/samaritan-proxy/samaritan/pb/config/service"
+)
+
+func TestGovcReplayCompressTwice(t *testing.T) {
+	cfg := newConfig(&service.Config{ProtocolOptions: &service.Config_RedisOption{RedisOption: &protocol.RedisOption{
+		Compression: &redispb.Compression{Enable: true, Threshold: 32, Algorithm: redispb.Compression_SNAPPY}}}})
+	f := newCompressFilter(cfg).(*compressFilter)
+	val := bytes.Repeat([]byte("0"), 1024)
+	orig := append([]byte{}, val...)
+	req := newSimpleRequest(newByteArray([]byte("set"), []byte("k"), val))
+	f.Do("set", req) // first attempt
+	f.Do("set", req) // the same request written again after MOVED / ASK
+	stored := append([]byte{}, req.Body().Array[2].Text...)
+	reply := newBulkBytes(stored)
+	f.Decompress(reply)
+	if !bytes.Equal(reply.Text, orig) {
+		t.Fatalf("REPLAY-VIOLATION a 1024-byte value passed through the compression filter twice (redirected write) is stored as %d bytes and reads back as %d bytes that differ from the value written", len(stored), len(reply.Text))
+	}
+}
+`
+	return "proc/redis", "TestGovcReplayCompressTwice", src, true
+}
+
+func containsAny(s string, subs ...string) bool {
+	for _, x := range subs {
+		if len(x) > 0 && len(s) >= len(x) {
+			for i := 0; i+len(x) <= len(s); i++ {
+				if s[i:i+len(x)] == x {
+					return true
+				}
+			}
+		}
+	}
+	return false
+}
